@@ -174,7 +174,7 @@ func c02MissCodes(c *core.Ctx, reg *types.Named) {
 			continue
 		}
 		res := fn.Signature.Results()
-		if res.Len() > 0 && res.At(res.Len()-1).Type().String() == "error" && fn.Name() != "checkManifest" {
+		if res.Len() > 0 && res.At(res.Len()-1).Type().String() == "error" && fnName(fn) != "checkManifest" {
 			fns = append(fns, fn)
 			helpers[fn] = true
 		}
@@ -403,7 +403,7 @@ func c02ReferenceChecks(c *core.Ctx, reg *types.Named) {
 	tp := c.P.TypesPkg("ocimem")
 	for _, name := range tp.Scope().Names() {
 		if k, ok := tp.Scope().Lookup(name).(*types.Const); ok {
-			if nt, ok := k.Type().(*types.Named); ok && nt.Obj().Name() == "refKind" {
+			if nt, ok := k.Type().(*types.Named); ok && canonTypeName(nt) == "refKind" {
 				v, _ := constInt64(k)
 				kinds[name] = v
 			}
